@@ -1230,12 +1230,25 @@ class Definition(Macro):
                       args[i+1].catcode != Token.CC_PARAMETER:
                     i, a = next(argIter)
                     delim.append(a)
+                # The delimiter only counts outside of brace groups
                 param = []
+                level = 0
+                closed = -1
                 for t in tex.itertokens():
                     param.append(t)
-                    if param[-len(delim):] == delim:
+                    if t.catcode == Token.CC_BGROUP:
+                        level += 1
+                    elif t.catcode == Token.CC_EGROUP:
+                        level -= 1
+                        if level == 0 and closed < 0:
+                            closed = len(param)
+                    elif level == 0 and param[-len(delim):] == delim:
                         del param[-len(delim):]
                         break
+                # An argument that is exactly one brace group loses its braces
+                if param and param[0].catcode == Token.CC_BGROUP and \
+                   closed == len(param):
+                    param = param[1:-1]
                 inparam = False
                 params.append(param)
 
